@@ -325,7 +325,7 @@ func (d *VoteDriver) Step(x *Exec, n *Node, i int) StepResult {
 		nn.M = m
 		return StepResult{Next: nn, Outcome: "FAULT"}
 	}
-	if fmt.Sprint(obs.Notifs) != fmt.Sprint(expN) {
+	if !SameNotifSet(obs.Notifs, expN) {
 		where["fired_in_model"] = fired
 		return viol("decision-timing", fmt.Sprintf("threshold %d of %d; model says fired=%v; notifications %v, expected %v", threshold, len(m.alpha), fired, obs.Notifs, expN))
 	}
